@@ -34,7 +34,7 @@ API_ASSUME = ["oracle/ (independent mailbox rules implementation) is correct; pi
 
 def c01(tier, seed):
     q = tier == "quick"
-    c = _api("C01", tier, seed, "asan" if q else "rel", games=60 if q else 4000, plies=150, synth=14000 if q else 900000)
+    c = _api("C01", tier, seed, "asan" if q else "rel", games=60 if q else 16000, plies=150, synth=14000 if q else 3500000, timeout=5400)
     if not q:
         c2 = _api("C01", tier, seed + 500, "asan", games=300, plies=150, synth=60000)
         _merge(c, c2)
@@ -66,7 +66,7 @@ def _merge(a, b):
 
 def c02(tier, seed):
     q = tier == "quick"
-    c = _api("C02", tier, seed, "asan" if q else "rel", games=50 if q else 3000, plies=200, synth=6000 if q else 400000)
+    c = _api("C02", tier, seed, "asan" if q else "rel", games=50 if q else 12000, plies=200, synth=6000 if q else 1600000, timeout=5400)
     c.rule = ("all legal moves of every generated position: Position::do_move then fen() compared field by field with the oracle's "
               "make-move; plus every game prefix replayed move by move (history part); non-trivial = (position, move) pairs; "
               "distinct counted per position")
@@ -108,7 +108,7 @@ def c03(tier, seed):
 
 def c04(tier, seed):
     q = tier == "quick"
-    c = _api("C04", tier, seed, "asan" if q else "rel", games=160 if q else 8000, plies=150, synth=4000 if q else 200000)
+    c = _api("C04", tier, seed, "asan" if q else "rel", games=160 if q else 60000, plies=150, synth=4000 if q else 1500000, timeout=5400)
     c.rule = ("incremental key == key of Position(fen) after every move/null move; process-wide maps position(FEN fields 1-4)<->key "
               "and pawn placement<->pawn key; shuffle games on sparse positions force transpositions (revisits counted); "
               "non-trivial = distinct positions")
@@ -120,7 +120,7 @@ def c04(tier, seed):
 
 def c07(tier, seed):
     q = tier == "quick"
-    c = _api("C07", tier, seed, "asan" if q else "rel", games=120 if q else 6000, plies=160, synth=2500 if q else 100000)
+    c = _api("C07", tier, seed, "asan" if q else "rel", games=120 if q else 40000, plies=160, synth=2500 if q else 700000, timeout=5400)
     c.rule = ("every ply of oracle-played games (repetition-biased, late-clock starts, sparse material, up to 790 plies): the eight "
               "predicates compared with the oracle's own game history (position strings, clock, material); non-trivial = distinct "
               "(position, occurrence count, clock>=100) triples")
@@ -134,7 +134,7 @@ def c07(tier, seed):
 
 def c15(tier, seed):
     q = tier == "quick"
-    c = _api("C15", tier, seed, "asan" if q else "rel", games=60 if q else 3000, plies=150, synth=14000 if q else 800000)
+    c = _api("C15", tier, seed, "asan" if q else "rel", games=60 if q else 12000, plies=150, synth=14000 if q else 3500000, timeout=5400)
     c.rule = ("move_is_capture / move_is_quiet / move_gives_check for every legal move vs the oracle's make-move outcome; "
               "non-trivial = distinct (position, move) that is a capture, promotion, castle or check")
     c.assumptions = API_ASSUME
@@ -145,7 +145,7 @@ def c15(tier, seed):
 
 def c16(tier, seed):
     q = tier == "quick"
-    c = _api("C16", tier, seed, "asan" if q else "rel", games=50 if q else 2500, plies=150, synth=8000 if q else 500000,
+    c = _api("C16", tier, seed, "asan" if q else "rel", games=50 if q else 12000, plies=150, synth=8000 if q else 2500000, timeout=5400,
              extra=lambda i: ["--encoding"] if i == 0 else [])
     c.rule = ("uci(m) text vs oracle long algebraic and parse_uci(uci(m)) == m for every legal move; exhaustive enumeration of the "
               "packed Move / MoveInfo encodings; Position(P.fen()) identical to P (text, keys, placement, rights, ep, clocks); "
@@ -171,7 +171,7 @@ def c17(tier, seed):
 
 def c18(tier, seed):
     q = tier == "quick"
-    c = _api("C18", tier, seed, "asan" if q else "rel", games=60 if q else 3000, plies=150, synth=20000 if q else 1000000)
+    c = _api("C18", tier, seed, "asan" if q else "rel", games=60 if q else 25000, plies=150, synth=20000 if q else 8000000, timeout=5400)
     c.rule = ("PolyglotBook::hash vs the published algorithm on a golden Random64[781]; every ply of games + synthetic positions "
               "(half of them ep-matrix); non-trivial = distinct positions with an ep square or castling rights")
     c.assumptions = API_ASSUME + ["golden Random64 table extracted once from the pinned commit, pinned by the 9 official vectors "
@@ -196,7 +196,7 @@ def _split(prop, tier, seed, flavour, monitor, extra, workers=W, timeout=1500, l
 
 def c11(tier, seed):
     q = tier == "quick"
-    c = _split("C11", tier, seed, "rel", "tables_monitor", ["--randoms", str(150000 if q else 6000000)])
+    c = _split("C11", tier, seed, "rel", "tables_monitor", ["--randoms", str(150000 if q else 40000000)], timeout=5400)
     if not q:
         _merge(c, _split("C11", tier, seed + 500, "asan", "tables_monitor", ["--randoms", "200000"]))
     c.rule = ("EXHAUSTIVE: all 64 x 2^k subsets of the relevant blocker squares for bishop (5,248) and rook (102,400), each also with "
@@ -266,7 +266,7 @@ def _eval(prop, tier, seed, flavour, games, synth, endgames, directed_workers=0,
 
 def c13(tier, seed):
     q = tier == "quick"
-    c = _eval("C13", tier, seed, "rel", games=40 if q else 1500, synth=3000 if q else 150000, endgames=150 if q else 6000)
+    c = _eval("C13", tier, seed, "rel", games=40 if q else 3000, synth=3000 if q else 400000, endgames=150 if q else 15000, timeout=5400)
     _merge(c, _eval("C13", tier, seed + 500, "asan", games=6 if q else 100, synth=500 if q else 10000, endgames=20 if q else 400))
     c.rule = ("score(P) == score(mirror(P)) for game positions, synthetic positions and every specialised endgame class with either "
               "colour as the strong side (positions with insufficient material excluded per the statement); mismatches re-evaluated on "
@@ -280,7 +280,7 @@ def c13(tier, seed):
 
 def c14(tier, seed):
     q = tier == "quick"
-    c = _eval("C14", tier, seed, "rel", games=30 if q else 1200, synth=3000 if q else 100000, endgames=200 if q else 8000,
+    c = _eval("C14", tier, seed, "rel", games=30 if q else 5000, synth=3000 if q else 400000, endgames=200 if q else 30000, timeout=5400,
               directed_workers=6 if q else 16)
     _merge(c, _eval("C14", tier, seed + 500, "asan", games=4 if q else 60, synth=400 if q else 5000, endgames=40 if q else 400))
     c.rule = ("streams of positions evaluated on two long-lived evaluators (different order, random clear() points) and on fresh "
